@@ -1,7 +1,9 @@
 package main
 
 import (
+	"bytes"
 	"fmt"
+	theine "github.com/Yiling-J/theine-go"
 	"math/bits"
 	"math/rand"
 
@@ -69,13 +71,14 @@ func c17Hashes(rng *rand.Rand, pattern string, n int, blockMask uint64) []uint64
 }
 
 type c17Mon struct {
-	r       *Run
-	s       *internal.CountMinSketch
-	ref     map[uint64]uint64
+	r          *Run
+	s          *internal.CountMinSketch
+	ref        map[uint64]uint64
 	sinceReset uint // Additions increments seen since last reset
-	cs      c17Case
-	trace   []string
-	bad     bool
+	ownChanged uint // Adds since the last reset / growth that changed the table, counted from the table itself (small tables)
+	cs         c17Case
+	trace      []string
+	bad        bool
 }
 
 func (m *c17Mon) note(f string, a ...any) {
@@ -174,10 +177,31 @@ func (m *c17Mon) add(h uint64) {
 		before = append([]uint64(nil), s.Table...)
 	}
 	addsBefore := s.Additions
+	// independent of the sketch's own bookkeeping: did this Add change the table? (tables up to 1024 words)
+	small := len(s.Table) <= 1024
+	if small && before == nil {
+		before = append([]uint64(nil), s.Table...)
+	}
 	var reset bool
 	m.safely(fmt.Sprintf("Add(%#x)", h), func() { reset = s.Add(h) })
 	m.note("Add(%#x)->%v additions=%d", h, reset, s.Additions)
+	if small && !reset && len(before) == len(s.Table) {
+		for i := range before {
+			if before[i] != s.Table[i] {
+				m.ownChanged++
+				break
+			}
+		}
+		if m.ownChanged >= s.SampleSize {
+			m.violate("reset-overdue", fmt.Sprintf("%d additions have changed the table since the last reset (sample period %d) and no reset has happened; the sketch's own count says %d", m.ownChanged, s.SampleSize, s.Additions))
+			m.ownChanged = 0
+		}
+	}
+	if !willReset {
+		before = nil
+	}
 	if reset {
+		m.ownChanged = 0
 		m.cs.Resets++
 		if before != nil {
 			m.checkHalved(before)
@@ -224,6 +248,7 @@ func (m *c17Mon) ensure(size uint) {
 		m.cs.Grow++
 		m.ref = map[uint64]uint64{}
 		m.sinceReset = 0
+		m.ownChanged = 0
 		// a grown table starts a new epoch and must be empty
 		for i, w := range m.s.Table {
 			if w != 0 {
@@ -235,7 +260,92 @@ func (m *c17Mon) ensure(size uint) {
 	m.checkStruct("after EnsureCapacity")
 }
 
+// c17InStore: the sketch as the cache drives it, including the bulk additions of LoadCache into a cache that is
+// already in use (its own additions plus the restored frequencies): after every step the addition count must stay
+// below the sample size (a count at or past it can never meet the reset's equality test again), and over the next
+// three sample periods of reads at least one aging reset must be seen.
+func c17InStore(r *Run, idx int) {
+	rng := r.Rng(int64(17500 + idx))
+	M := []int64{64, 256, 1024}[rng.Intn(3)]
+	mk := func() (*theine.Cache[int, int64], error) { return theine.NewBuilder[int, int64](M).Build() }
+	src, err := mk()
+	if err != nil {
+		r.Broken("build: %v", err)
+		return
+	}
+	defer src.Close()
+	hot := func(c *theine.Cache[int, int64], base, n, reps int) {
+		for k := 0; k < n; k++ {
+			c.Set(base+k, int64(k), 1)
+		}
+		c.Wait()
+		for rep := 0; rep < reps; rep++ {
+			for k := 0; k < n; k++ {
+				c.Get(base + k)
+			}
+		}
+		c.Wait()
+	}
+	hot(src, 0, int(M)/2, 9+rng.Intn(8)) // half full, so that the load does not grow the target's table (growth starts a new sample)
+	var buf bytes.Buffer
+	if err := src.SaveCache(1, &buf); err != nil {
+		r.Broken("save: %v", err)
+		return
+	}
+	dst, err := mk()
+	if err != nil {
+		r.Broken("build: %v", err)
+		return
+	}
+	defer dst.Close()
+	st := dst.VerifStore()
+	hot(dst, 1<<20, int(M)/2, 6+rng.Intn(8)) // the target is in use and half full: its sketch has additions of its own, and there is room to restore into
+	a0, ss0, _ := st.VerifSketchCounts()
+	if err := dst.LoadCache(1, &buf); err != nil {
+		r.Broken("load: %v", err)
+		return
+	}
+	a1, ss1, tl := st.VerifSketchCounts()
+	wit := map[string]any{"maxsize": M, "additions_before_load": a0, "sample_size_before_load": ss0, "additions_after_load": a1, "sample_size_after_load": ss1, "table_len": tl}
+	if a1 >= ss1 {
+		r.Violate("additions>=samplesize/after-loadcache-into-a-cache-in-use", fmt.Sprintf("in-store case %d (MaxSize %d): after LoadCache into a cache in use the sketch counts %d additions with a sample size of %d (before the load: %d of %d): the aging reset tests for equality and can no longer trigger", idx, M, a1, ss1, a0, ss0), wit)
+		return
+	}
+	// resets keep occurring: over three sample periods of reads of resident keys the count must fall at least once
+	sawReset := false
+	last := a1
+	steps := 0
+	for steps < 3*int(ss1)+64 && !sawReset {
+		for k := 0; k < 64; k++ {
+			dst.Get(rng.Intn(int(M)))
+			dst.Get(1<<20 + rng.Intn(int(M)/2))
+		}
+		steps += 128
+		a, ss, _ := st.VerifSketchCounts()
+		if a >= ss {
+			r.Violate("additions>=samplesize/after-loadcache-into-a-cache-in-use", fmt.Sprintf("in-store case %d (MaxSize %d): %d reads after the load the sketch counts %d additions with a sample size of %d", idx, M, steps, a, ss), wit)
+			return
+		}
+		if a < last {
+			sawReset = true
+		}
+		last = a
+	}
+	r.Eval(1)
+	r.Count("in_store_cases", 1)
+	if sawReset {
+		r.Count("in_store_cases_with_a_reset_after_the_load", 1)
+		r.Distinct(fmt.Sprintf("in-store/M%d", M))
+	} else {
+		// reads of entries whose counters are saturated do not count as additions: no verdict from silence
+		r.Count("in_store_cases_without_a_reset_in_three_periods", 1)
+	}
+}
+
 func runC17(r *Run) {
+	for i := 0; i < r.Pick(12, 120); i++ {
+		c17InStore(r, i)
+	}
 	r.Rule("case = one generated operation sequence (table size x hash pattern x op mix) against the real CountMinSketch with an exact reference; " +
 		"non-trivial = the sequence contained at least one aging reset and at least one estimate saturated at 15; distinct by (table size, pattern, mix, #resets, #growths)")
 	r.Assume("reference counts restart at every reset and at every growth of the table (the property speaks of the interval between two resets)",
